@@ -1,4 +1,5 @@
 import StorageModel.C06.Fuel
+import StorageModel.C06.Depth
 /-
   C06 — A committed delete leaves no trace of the entity's id.
 
@@ -469,6 +470,85 @@ theorem typed_variant_witness :
 
 example : NoClash Names.typedV [97] (step exTyped (.deleteA [97])).1 := noClash_of_check (by decide)
 example : NoClash Names.typedV [112] (txStep exTyped [.deleteA [97], .deleteB [112]]).1 := noClash_of_check (by decide)
+
+/-! ## Layering depth: the delete orchestration over a tree of stores of any depth (`C06/Depth.lean`) -/
+section DepthSection
+open StorageModel.C06.Depth
+
+/-- the FULL statement: in every configuration the library accepts, a committed delete through any store
+    leaves nothing of the id.  It is FALSE at depth 3 (`grandchild_delete_leaves_trace`): the root fans out
+    over its own registered strategies only, so a store registered with a CHILD is never visited. -/
+def delete_no_trace_fullStatement : Prop :=
+  ∀ (cfg : Cfg) (s s' : DState) (k : Nat) (id : Id),
+    rootOf cfg k = 0 → Sound cfg s → deleteById cfg s k id = .ok s' → NoTrace s' id
+
+/-- proved part: every configuration in which every declaring store is the root or registered with the
+    root (any depth, any number of stores; all depth ≤ 2 configurations are of this kind); the state stays
+    sound, so the statement composes over histories of deletes.  Missing for the full statement: stores
+    registered below the root - there the code leaves their entries behind. -/
+theorem delete_no_trace_partial {cfg : Cfg} {s s' : DState} {k : Nat} {id : Id}
+    (hr : AllDeclaringStoresReachable cfg) (h0 : rootOf cfg k = 0) (hs : Sound cfg s)
+    (hd : deleteById cfg s k id = .ok s') : NoTrace s' id ∧ Sound cfg s' :=
+  ⟨delete_no_trace_reachable hr h0 hs hd, sound_after_delete hr h0 hs hd⟩
+
+def allDecl (p : Option Nat) (r : List Nat) (path : List Bytes) (tag : UInt8) : StoreCfg :=
+  { parent := p, regWith := r, path := path, tag := tag, uniq := true, set := true, link := true, fk := true }
+
+/-- A → C → G, G registered with C (the library accepts it) -/
+def cfg3 : Cfg := [allDecl none [] [] 48, allDecl (some 0) [0] [[101, 120, 116]] 49,
+  allDecl (some 1) [1] [[101, 120, 116], [103]] 50]
+/-- the same chain with G registered with the root as well -/
+def cfg3r : Cfg := [allDecl none [] [] 48, allDecl (some 0) [0] [[101, 120, 116]] 49,
+  allDecl (some 1) [1, 0] [[101, 120, 116], [103]] 50]
+
+def vs3 : Nat → Vals
+  | 0 => { u := some [120], s := [[109]], l := [[112]], f := some [113] }
+  | 1 => { u := some [121], s := [[110]], l := [[112]], f := some [113] }
+  | _ => { u := some [122], s := [[111]], l := [[112]], f := some [113] }
+
+def stateOf (r : Except Err DState) : DState := match r with
+  | .ok t => t
+  | .error _ => {}
+
+def s3 : DState := stateOf (createThrough cfg3 {} 2 [97] vs3)
+def s3d : DState := stateOf (deleteById cfg3 s3 0 [97])
+def s3r : DState := stateOf (createThrough cfg3r {} 2 [97] vs3)
+
+example : AllDeclaringStoresReachable cfg3r := reachable_of_B (by decide)
+example : ¬ AllDeclaringStoresReachable cfg3 := fun h => by have := h 2 (by decide); revert this; decide
+example : Sound cfg3r s3r ∧ rootOf cfg3r 2 = 0 ∧ okB (deleteById cfg3r s3r 2 [97]) = true := by decide
+example : NoTrace (stateOf (deleteById cfg3r s3r 2 [97])) [97] := by decide
+
+/-- **the model follows the code**: three-level chain, entity created through G, deleted through the root:
+    exactly G's own unique / set / link / fk entries stay behind -/
+theorem grandchild_delete_leaves_trace : ¬ delete_no_trace_fullStatement := by
+  intro h
+  have := h cfg3 s3 s3d 0 [97] (by decide) (by decide) rfl
+  revert this; decide
+
+example : s3d.data = [] ∧ s3d.idx = [⟨.u, 2, [122], [97]⟩, ⟨.s, 2, [111], [97]⟩, ⟨.f, 2, [113], [97]⟩, ⟨.l, 2, [112], [97]⟩] := by decide
+
+def recreate_fresh_fullStatement : Prop :=
+  ∀ (cfg : Cfg) (s s' : DState) (k : Nat) (id : Id) (k' : Nat) (vs : Nat → Vals),
+    rootOf cfg k = 0 → Sound cfg s → deleteById cfg s k id = .ok s' →
+    createThrough cfg s' k' id vs = createThrough cfg (purge s' id) k' id vs
+
+/-- after a committed delete a creation of the id sees a state that holds nothing of it (it behaves as in the
+    state with everything of the id purged) - for the reachable configurations -/
+theorem recreate_fresh_partial {cfg : Cfg} {s s' : DState} {k : Nat} {id : Id}
+    (hr : AllDeclaringStoresReachable cfg) (h0 : rootOf cfg k = 0) (hs : Sound cfg s)
+    (hd : deleteById cfg s k id = .ok s') (k' : Nat) (vs : Nat → Vals) :
+    createThrough cfg s' k' id vs = createThrough cfg (purge s' id) k' id vs := by
+  rw [purge_of_noTrace (delete_no_trace_reachable hr h0 hs hd)]
+
+/-- at depth 3 the re-creation meets G's stale unique entry: duplicate-value error -/
+theorem grandchild_recreate_meets_stale_entry : ¬ recreate_fresh_fullStatement := by
+  intro h
+  have e := h cfg3 s3 s3d 0 [97] 2 vs3 (by decide) (by decide) rfl
+  have : okB (createThrough cfg3 s3d 2 [97] vs3) = okB (createThrough cfg3 (purge s3d [97]) 2 [97] vs3) := by rw [e]
+  revert this; decide
+
+end DepthSection
 
 end StorageModel.Properties.C06
 
